@@ -116,6 +116,30 @@ def covers(drop_key, root_key):
     return True
 
 
+def bool_false_only_under(H, rx):
+    """every definition of H's bool result is `true`, or `false` at a place dominated by the false edge of a call matching rx"""
+    import guards
+    cfg = CFG(H)
+    E = ExprBuilder(cfg)
+    n_false = 0
+    for (bi, si, d) in cfg.defs.get(0, []):
+        if si == 'call' or d.rv['k'] != 'use':
+            return False
+        o = Operand(d.rv['o'])
+        if not o.is_const or o.value not in (0, 1, True, False):
+            return False
+        if o.value in (1, True):
+            continue
+        n_false += 1
+        ok = False
+        for (c, truth, D) in guards.known(cfg, E, bi):
+            if truth is False and isinstance(c, tuple) and c[0] == 'call' and re.search(rx, c[1]):
+                ok = True
+        if not ok:
+            return False
+    return n_false > 0
+
+
 _FAITHFUL = {}
 
 
@@ -172,6 +196,11 @@ def analyse(body, spec=None, carries=lambda ty, cm: cm, track_all_vars=False, F=
         for (rx, val, fact) in spec.excuse_edges:
             if re.search(rx, path) or (c.resolved and re.search(rx, c.resolved)):
                 excuse_calls[b.i] = (dest, val, fact)
+            elif F is not None and dest.t == 'bool' and val == 0:
+                # private helper that reports the excuse (`fn plugins_accept_msg(..) -> bool`): false only where the excusing call was false
+                H = F.get(c.resolved) if c.resolved else F.get(path)
+                if H is not None and H.kind != 'closure' and H.path != body.path and H.ret_type() == 'bool' and bool_false_only_under(H, rx):
+                    excuse_calls[b.i] = (dest, val, fact)
         # CLONE
         if path in CLONE_CALLEES or path.endswith('::clone'):
             st = c.self_ty or (arg_tys[0] if arg_tys else '')
@@ -207,7 +236,7 @@ def analyse(body, spec=None, carries=lambda ty, cm: cm, track_all_vars=False, F=
             res.store_sites.append({'block': b.i, 'callee': path, 'into': root.show(body) if root else '?', 'sp': t.sp})
             continue
         # LOSSY methods on containers/sources (by value or by &mut)
-        if args and LOSSY_METHODS.search(path.split('<')[0] if path.startswith('<') is False else path):
+        if args and LOSSY_METHODS.search(re.sub(r'::<[^<>]*(<[^<>]*>[^<>]*)*>', '', path) if not path.startswith('<') else path):
             a0ty = arg_tys[0]
             if CONTAINER_TY.match(a0ty) and 'DltMessage' in a0ty and not a0ty.startswith('&std') and not a0ty.startswith('&['):
                 if not any(re.search(rx, path) for rx, _ in spec.allow_lossy):
